@@ -16,7 +16,7 @@ VARIABLES itemC, orderC, itemQ, style, done
 vars == <<itemC, orderC, itemQ, style, done>>
 
 Init == /\ itemC \in SeqsUpTo(Constraints, MaxComments)
-        /\ orderC \in SeqsUpTo(Constraints, 1)
+        /\ orderC \in SeqsUpTo(Constraints \ {<<"_SELECT", "KEY", "(", "K", ")">>}, 1)     \* Order has no column K
         /\ itemQ \in SeqsUpTo(Queries, 1)
         /\ style \in {"single", "grouped"}
         /\ done = FALSE
